@@ -11,6 +11,7 @@ import (
 	"fmt"
 	"os"
 	"runtime/debug"
+	"sync"
 )
 
 type rawCase = map[string]json.RawMessage
@@ -83,6 +84,62 @@ func forEachCase(f func(id interface{}, c rawCase) map[string]interface{}) {
 	}
 }
 
+// forEachCaseConcurrent reads all cases, evaluates them with `workers` goroutines and emits the observations in input order.
+func forEachCaseConcurrent(f func(id interface{}, c rawCase) map[string]interface{}, workers int) {
+	in := bufio.NewReaderSize(os.Stdin, 1<<20)
+	var cases []rawCase
+	for {
+		line, err := in.ReadBytes('\n')
+		if len(line) > 1 {
+			var c rawCase
+			if e := json.Unmarshal(line, &c); e == nil {
+				cases = append(cases, c)
+			}
+		}
+		if err != nil {
+			break
+		}
+	}
+	results := make([]map[string]interface{}, len(cases))
+	var wg sync.WaitGroup
+	next := make(chan int)
+	for w := 0; w < workers; w++ {
+		wg.Add(1)
+		go func() {
+			defer wg.Done()
+			for i := range next {
+				c := cases[i]
+				var id interface{}
+				if r, ok := c["id"]; ok {
+					json.Unmarshal(r, &id)
+				}
+				var res map[string]interface{}
+				func() {
+					defer func() {
+						if r := recover(); r != nil {
+							res = map[string]interface{}{"panic": fmt.Sprint(r), "stack": string(debug.Stack())}
+						}
+					}()
+					res = f(id, c)
+				}()
+				if res == nil {
+					res = map[string]interface{}{}
+				}
+				res["id"] = id
+				results[i] = res
+			}
+		}()
+	}
+	for i := range cases {
+		next <- i
+	}
+	close(next)
+	wg.Wait()
+	for _, r := range results {
+		emit(r)
+	}
+}
+
 func main() {
 	out = bufio.NewWriterSize(os.Stdout, 1<<20)
 	defer out.Flush()
@@ -108,7 +165,8 @@ func main() {
 	case "config":
 		forEachCase(configCase)
 	case "parse":
-		forEachCase(parseCase)
+		// the parsers are pure functions: cases are evaluated by several goroutines at once
+		forEachCaseConcurrent(parseCase, 6)
 	case "filter":
 		forEachCase(filterCase)
 	default:
